@@ -4,7 +4,7 @@
 package peering
 
 //@ type Peering
-//@   invariant wired [C13]: nonnil(self.instance)
+//@   invariant wired [C13]: nonnil(self.instance) && self.mgr != nil
 
 //@ type LinkBase
 //@   invariant wired [C13]: self.peering != nil && nonnil(self.conn)
